@@ -177,7 +177,7 @@ class TlcResult:
         self.timeout = rc == 124
 
     def last_l(self):
-        ls = re.findall(r"^/\\ l = (\d+)", self.out, re.M)
+        ls = re.findall(r"^(?:/\\ )?l = (\d+)", self.out, re.M)
         return int(ls[-1]) if ls else None
 
     def ok(self):
@@ -257,7 +257,7 @@ def run_harness(binp, tests, wdir, shards=NCPU, timeout=900, per_test_timeout="6
 TRACE_CFG = """SPECIFICATION Spec
 CONSTANTS
   TraceFile = "%(file)s"
-  Dev = {%(dev)s}
+%(extra)s  Dev = {%(dev)s}
 INVARIANTS %(invs)s
 POSTCONDITION TraceAccepted
 CHECK_DEADLOCK FALSE
@@ -291,11 +291,21 @@ class Failure:
         self.test_id, self.invariant, self.event_index, self.event, self.lines, self.tlc_tail = test_id, invariant, event_index, event, lines, tlc_tail
 
 
-def validate_trace(trace_path, invs, wdir, module="SodTrace", dev=(), timeout=900, max_fail=25, heap="3g"):
+def validate_trace(trace_path, invs, wdir, module="SodTrace", dev=(), timeout=900, max_fail=25, heap="3g", second=None):
     """Validate a concatenated trace with TLC.  On a violation the failing test
     is recorded and validation resumes with the following test, so the rest of
     the trace is still checked.  Returns (failures, states, tlc_runs)."""
     tests = split_tests(trace_path)
+    tests2 = split_tests(second) if second else None
+    if tests2 is not None:
+        if [t[0] for t in tests] != [t[0] for t in tests2]:
+            raise Inconclusive("paired traces do not contain the same tests: %s %s" % (trace_path, second))
+        # lock-step consumption: pad the shorter recording of each test (a pad never equals a real event)
+        for a, b in zip(tests, tests2):
+            while len(a[1]) < len(b[1]):
+                a[1].append('{"ev":"pad"}\n')
+            while len(b[1]) < len(a[1]):
+                b[1].append('{"ev":"pad"}\n')
     os.makedirs(wdir, exist_ok=True)
     failures, states, runs = [], 0, 0
     pos = 0
@@ -305,7 +315,14 @@ def validate_trace(trace_path, invs, wdir, module="SodTrace", dev=(), timeout=90
         with open(fp, "w") as f:
             for _, lines in part:
                 f.writelines(lines)
-        cfg = TRACE_CFG % {"file": fp, "dev": ", ".join('"%s"' % d for d in dev), "invs": " ".join(invs)}
+        extra = ""
+        if tests2 is not None:
+            fp2 = os.path.join(wdir, "partB-%d.ndjson" % runs)
+            with open(fp2, "w") as f:
+                for _, lines in tests2[pos:]:
+                    f.writelines(lines)
+            extra = '  TraceFileB = "%s"\n' % fp2
+        cfg = TRACE_CFG % {"file": fp, "extra": extra, "dev": ", ".join('"%s"' % d for d in dev), "invs": " ".join(invs)}
         r = tlc(module, cfg, wdir, workers=1, timeout=timeout, heap=heap, name="%s_%d" % (module, runs))
         runs += 1
         states += r.distinct
@@ -336,7 +353,9 @@ def validate_trace(trace_path, invs, wdir, module="SodTrace", dev=(), timeout=90
             except Exception:
                 evt = None
             inv = r.violated[0] if r.violated else "TraceAccepted(stuck)"
-            failures.append(Failure(tid, inv, idx, evt, lines, r.out[-1500:]))
+            fl = Failure(tid, inv, idx, evt, lines, r.out[-1500:])
+            fl.lines2 = tests2[pos + hit][1] if tests2 is not None else None
+            failures.append(fl)
             pos += hit + 1
             if len(failures) >= max_fail:
                 break
@@ -345,11 +364,11 @@ def validate_trace(trace_path, invs, wdir, module="SodTrace", dev=(), timeout=90
     return failures, states, runs
 
 
-def validate_many(shard_traces, invs, wdir, **kw):
+def validate_many(shard_traces, invs, wdir, seconds=None, **kw):
     """Validate several trace files in parallel JVMs."""
     def one(i_tp):
         i, tp = i_tp
-        return validate_trace(tp, invs, os.path.join(wdir, "val-%d" % i), **kw)
+        return validate_trace(tp, invs, os.path.join(wdir, "val-%d" % i), second=seconds[i] if seconds else None, **kw)
     with ThreadPoolExecutor(max_workers=min(NCPU, max(1, len(shard_traces)))) as ex:
         res = list(ex.map(one, enumerate(shard_traces)))
     failures, states, runs = [], 0, 0
